@@ -32,6 +32,8 @@ class Harness:
     div_mode = 'fork'
     logic = None        # e.g. 'QF_BV' to use a specialised z3 solver
     exact_const_sqrt = False   # math.sqrt(2) etc. as exact algebraic numbers
+    reach = 'solver'    # vacuity guard: 'solver' (model of a completed path)
+    #                     or 'concrete' (the concrete() runs; for heavy NRA)
     timeout_ms = {'quick': 20000, 'thorough': 60000}
     max_paths = 200000
     unit_wall_s = {'quick': 240, 'thorough': 1500}
@@ -124,7 +126,7 @@ def _unit(args):
     t0 = time.time()
     out = dict(hidx=hidx, cidx=cidx, cfg=cfg, error=None, sat=[], paths=0,
                decisions=0, obligations=0, discharged=0, by={}, unknown=[],
-               reach=0, samples=[], exceptions={}, concrete=0, stats=None,
+               reach=0, reach_unknown=0, samples=[], exceptions={}, concrete=0, stats=None,
                notes=[])
     try:
         from pysym import core, npfacade, repo_module
@@ -157,9 +159,19 @@ def _unit(args):
                             tb=tb[-1500:]))
             else:
                 # reachability witness: path condition must be satisfiable
-                if ctx.obligations and out['reach'] < 3:
-                    if ctx.check(backend='reach') == 'sat':
+                if ctx.obligations and h.reach == 'concrete':
+                    # heavy non-linear path conditions: z3 may not honour its
+                    # timeout; vacuity is guarded by the concrete runs
+                    out['reach_unknown'] += 1
+                elif ctx.obligations and out['reach'] < 3 and \
+                        out['reach_unknown'] < 2:
+                    ctx.solver.set('timeout', 5000)
+                    rr = ctx.check(backend='reach')
+                    ctx.solver.set('timeout', ctx.timeout_ms)
+                    if rr == 'sat':
                         out['reach'] += 1
+                    elif rr == 'unknown':
+                        out['reach_unknown'] += 1
             for ob in rec['obligations']:
                 out['obligations'] += 1
                 out['by'][ob['by']] = out['by'].get(ob['by'], 0) + 1
@@ -310,6 +322,12 @@ def run_check(prop, tier='quick', only=None, jobs=None):
         if r['paths'] == 0:
             inconclusive.append('%s cfg=%s: no path explored' %
                                 (h.name, r['cfg']))
+        elif r['obligations'] and r['reach'] == 0 and r['reach_unknown'] \
+                and r['concrete'] > 0:
+            # solver could not exhibit a model of the (non-linear) path
+            # condition within 5 s; the concrete differential run executed the
+            # same code on real numbers satisfying the assumptions
+            pass
         elif r['obligations'] and r['reach'] == 0:
             inconclusive.append(
                 '%s cfg=%s: vacuous (no satisfiable completed path)' %
